@@ -510,6 +510,14 @@ impl RibUnitRunner {
         self.gate.clone()
     }
 
+    /// Verification hook: the cell holding the query limits, i.e. the one
+    /// `new` hands to `PrefixesApi::new` and the `Reconfiguring` arm of
+    /// `run` stores the new limits into.
+    #[cfg(feature = "verif-hooks")]
+    pub fn verif_query_limits(&self) -> Arc<ArcSwap<QueryLimits>> {
+        self.query_limits.clone()
+    }
+
     fn http_api_path_for_rib_type(
         http_api_path: &str,
         rib_type: RibType,
